@@ -2,6 +2,7 @@ package symx
 
 import (
 	"bufio"
+	"fmt"
 	"io"
 	"os"
 	"os/exec"
@@ -23,7 +24,14 @@ type solver struct {
 	nunknown int
 	dur      time.Duration
 	logf     *os.File
-	finalQ   []string // recorded assertion-style queries for the second solver (bounded)
+	script   []string   // every declaration/definition sent (for the second solver)
+	finalQ   []recordedQ // assertion queries with the verdict of this solver
+	record   bool
+}
+
+type recordedQ struct {
+	assumps []string
+	result  string
 }
 
 func solverArgv(kind string) []string {
@@ -58,6 +66,9 @@ func newSolver(kind string) *solver {
 }
 
 func (s *solver) send(line string) {
+	if strings.HasPrefix(line, "(declare-") || strings.HasPrefix(line, "(define-") {
+		s.script = append(s.script, line)
+	}
 	if s.logf != nil {
 		s.logf.WriteString(line + "\n")
 	}
@@ -83,6 +94,9 @@ func (s *solver) check(assumps []string) string {
 	}
 	r := s.readLine()
 	s.dur += time.Since(t0)
+	if s.record && len(s.finalQ) < 4000 {
+		s.finalQ = append(s.finalQ, recordedQ{append([]string{}, assumps...), r})
+	}
 	switch r {
 	case "sat":
 		s.nsat++
@@ -201,4 +215,61 @@ func (s *solver) close() {
 	if s.logf != nil {
 		s.logf.Close()
 	}
+}
+
+
+// SecondOpinion re-decides a sample of the recorded assertion queries with another solver.
+// It returns (checked, agreed, noOpinion, disagreements).
+func (s *solver) secondOpinion(kind string, max int, seed int, perQuery time.Duration) (checked, agreed, noOpinion int, disagree []string) {
+	if len(s.finalQ) == 0 {
+		return
+	}
+	defer func() {
+		if p := recover(); p != nil {
+			disagree = append(disagree, fmt.Sprint("second solver failed: ", p))
+		}
+	}()
+	o := newSolver(kind)
+	defer o.close()
+	for _, l := range s.script {
+		o.send(l)
+	}
+	// deterministic sample: stride through the list starting at seed
+	n := len(s.finalQ)
+	step := 1
+	if n > max {
+		step = n / max
+	}
+	for i := seed % step; i < n && checked < max; i += step {
+		q := s.finalQ[i]
+		if q.result != "sat" && q.result != "unsat" {
+			continue
+		}
+		checked++
+		done := make(chan string, 1)
+		go func() {
+			defer func() {
+				if p := recover(); p != nil {
+					done <- "error"
+				}
+			}()
+			done <- o.check(q.assumps)
+		}()
+		select {
+		case r := <-done:
+			switch {
+			case r == q.result:
+				agreed++
+			case r == "unknown" || r == "error":
+				noOpinion++
+			default:
+				disagree = append(disagree, fmt.Sprintf("query %d: %s says %s, %s says %s", i, s.kind, q.result, kind, r))
+			}
+		case <-time.After(perQuery):
+			noOpinion++
+			o.cmd.Process.Kill()
+			return
+		}
+	}
+	return
 }
